@@ -1280,6 +1280,107 @@ theorem purge_spec : Holds (purge : Act κ ν Unit) (fun _ => True) (fun g _ g' 
 end Arc
 
 
+/-! ### WTinyLFUCache -/
+namespace Wt
+
+theorem userCall_std : Holds (userCall : Act κ ν Unit) (fun _ => True) (fun g _ g' => Std g g') :=
+  Holds.conseq userCall_spec (fun _ _ _ => trivial) (fun _ _ _ _ _ _ h => ⟨Keeps.of_pool h.1, h.2.2.1⟩)
+
+theorem slruContains_spec (k : κ) : Holds (slruContains k : Act κ ν Bool) (fun _ => True) (fun g _ g' => Std g g') := by
+  refine Holds.intro fun g hI _ => ?_
+  unfold slruContains
+  refine Ok.bind (mapGet_spec 1 k |>.ok hI trivial) fun r g1 hI1 h1 => ?_
+  have hs1 : Std g g1 := ⟨Keeps.of_pool h1.1, h1.2.2.1⟩
+  cases r with
+  | some _ => exact Ok.pure hI1 hs1
+  | none =>
+    simp only
+    refine Ok.bind (mapGet_spec 0 k |>.ok hI1 trivial) fun r2 g2 hI2 h2 => ?_
+    have hs2 : Std g g2 := hs1.trans ⟨Keeps.of_pool h2.1, h2.2.2.1⟩
+    cases r2 <;> exact Ok.pure hI2 hs2
+
+theorem discard_std (r : PutResult κ ν) : Holds (discard r : Act κ ν Unit) (fun _ => True) (fun g _ g' => Std g g') :=
+  Holds.conseq (discard_spec r) (fun _ _ _ => trivial) (fun _ _ _ _ _ _ h => ⟨h.1, h.2.1⟩)
+
+theorem put_spec (b : Bool) (k : κ) (v : ν) : Holds (put b k v : Act κ ν (PutResult κ ν)) (fun _ => True)
+    (fun g _ g' => Std g g') := by
+  refine Holds.intro fun g hI _ => ?_
+  unfold put
+  refine Ok.bind (rawRemove_spec 2 k |>.ok hI trivial) fun r g1 hI1 h1 => ?_
+  cases r with
+  | none =>
+    simp only
+    refine Ok.bind (slruContains_spec k |>.ok hI1 trivial) fun c g2 hI2 h2 => ?_
+    have hs2 := h1.trans h2
+    split
+    · exact (Slru.put_spec k v |>.ok hI2 trivial).mono fun _ _ _ h => hs2.trans h
+    · refine Ok.bind (rawPut_spec 2 k v |>.ok hI2 trivial) fun pr g3 hI3 h3 => ?_
+      have hs3 := hs2.trans h3
+      cases pr with
+      | put => exact Ok.pure hI3 hs3
+      | update o => exact Ok.pure hI3 hs3
+      | evictedAndUpdate a b c => exact Ok.pure hI3 hs3
+      | evicted ek ev =>
+        simp only
+        refine Ok.bind (Ok.getG hI3) fun g4 g5 hI5 h => ?_
+        obtain ⟨rfl, rfl⟩ := h
+        split
+        · exact (Slru.put_spec ek ev |>.ok hI3 trivial).mono fun _ _ _ h => hs3.trans h
+        · split
+          · exact (Slru.put_spec ek ev |>.ok hI3 trivial).mono fun _ _ _ h => hs3.trans h
+          · refine Ok.bind (userCall_std.ok hI3 trivial) fun _ g4 hI4 h4 => ?_
+            have hs4 := hs3.trans h4
+            split
+            · exact Ok.pure hI4 hs4
+            · exact (Slru.put_spec ek ev |>.ok hI4 trivial).mono fun _ _ _ h => hs4.trans h
+  | some old =>
+    simp only
+    refine Ok.bind (Ok.getG hI1) fun g2 g3 hI3 h => ?_
+    obtain ⟨rfl, rfl⟩ := h
+    have tail : ∀ g2 : G κ ν, Inv g2 → Std g g2 →
+        Ok (do discard (← Slru.putProtected k v); pure (PutResult.update old) : Act κ ν (PutResult κ ν)) g2
+          (fun _ g' => Std g g') := by
+      intro g2 hI2 hs2
+      refine Ok.bind (Slru.putProtected_spec k v |>.ok hI2 trivial) fun pr g3 hI3 h3 => ?_
+      refine Ok.bind (discard_std pr |>.ok hI3 trivial) fun _ g4 hI4 h4 => ?_
+      exact Ok.pure hI4 ((hs2.trans h3).trans h4)
+    split
+    · refine Ok.bind (rawRemoveLru_spec 1 |>.ok hI1 trivial) fun r2 g2 hI2 h2 => ?_
+      cases r2 with
+      | none => exact Ok.panic hI2
+      | some e =>
+        obtain ⟨ek, ev⟩ := e
+        simp only
+        refine Ok.bind (rawPut_spec 2 ek ev |>.ok hI2 trivial) fun pr g3 hI3 h3 => ?_
+        refine Ok.bind (discard_std pr |>.ok hI3 trivial) fun _ g4 hI4 h4 => ?_
+        exact tail g4 hI4 (((h1.trans h2).trans h3).trans h4)
+    · exact tail g1 hI1 h1
+
+theorem get_spec (k : κ) : Holds (get k : Act κ ν Bool) (fun _ => True) (fun g _ g' => Std g g') := by
+  refine Holds.intro fun g hI _ => ?_
+  unfold get
+  refine Ok.bind (userCall_std.ok hI trivial) fun _ g1 hI1 h1 => ?_
+  refine Ok.bind (rawGet_spec 2 k |>.ok hI1 trivial) fun r g2 hI2 h2 => ?_
+  cases r with
+  | some _ => exact Ok.pure hI2 (h1.trans h2)
+  | none => exact (Slru.get_spec k |>.ok hI2 trivial).mono fun _ _ _ h => (h1.trans h2).trans h
+
+theorem remove_spec (k : κ) : Holds (remove k : Act κ ν (Option ν)) (fun _ => True) (fun g _ g' => Std g g') := by
+  refine Holds.intro fun g hI _ => ?_
+  unfold remove
+  refine Ok.bind (rawRemove_spec 2 k |>.ok hI trivial) fun r g1 hI1 h1 => ?_
+  cases r with
+  | some v => exact Ok.pure hI1 h1
+  | none => exact (Slru.remove_spec k |>.ok hI1 trivial).mono fun _ _ _ h => h1.trans h
+
+theorem purge_spec : Holds (purge : Act κ ν Unit) (fun _ => True) (fun g _ g' => Std g g') := by
+  refine Holds.intro fun g hI _ => ?_
+  unfold purge
+  refine Ok.bind (rawPurge_spec 2 |>.ok hI trivial) fun _ g1 hI1 h1 => ?_
+  exact (Slru.purge_spec.ok hI1 trivial).mono fun _ _ _ h => h1.trans h
+
+end Wt
+
 /-! ### the operation alphabet of the composite caches -/
 
 /-- the operations (the `Bool`/payload results are irrelevant here) -/
@@ -1287,6 +1388,7 @@ inductive COp (κ ν : Type)
   | slruPut (k : κ) (v : ν) | slruGet (k : κ) | slruPutProtected (k : κ) (v : ν) | slruRemove (k : κ) | slruPurge
   | twoqPut (q : TwoQ.Params) (k : κ) (v : ν) | twoqGet (k : κ) | twoqRemove (k : κ) | twoqPurge
   | arcPut (size : Nat) (k : κ) (v : ν) | arcGet (k : κ) | arcRemove (k : κ) | arcPurge
+  | wtPut (admitLt : Bool) (k : κ) (v : ν) | wtGet (k : κ) | wtRemove (k : κ) | wtPurge
   -- public `RawLRU` calls on one list (accessors of the composites, the window of W-TinyLFU)
   | rawPut (c : Nat) (k : κ) (v : ν) | rawGet (c : Nat) (k : κ) | rawRemove (c : Nat) (k : κ) | rawRemoveLru (c : Nat)
   | rawPurge (c : Nat) | lookup (c : Nat) (k : κ)
@@ -1305,6 +1407,10 @@ def COp.run : COp κ ν → Act κ ν Unit
   | .arcGet k => do let _ ← Arc.get k
   | .arcRemove k => do let _ ← Arc.remove k
   | .arcPurge => Arc.purge
+  | .wtPut b k v => do let _ ← Wt.put b k v
+  | .wtGet k => do let _ ← Wt.get k
+  | .wtRemove k => do let _ ← Wt.remove k
+  | .wtPurge => Wt.purge
   | .rawPut c k v => do let _ ← M.AG.rawPut c k v
   | .rawGet c k => do let _ ← M.AG.rawGet c k
   | .rawRemove c k => do let _ ← M.AG.rawRemove c k
@@ -1333,6 +1439,10 @@ theorem composite_op_spec (op : COp κ ν) : Holds op.run (fun _ => True) (fun g
   | arcGet k => exact voided (Arc.get_spec k)
   | arcRemove k => exact voided (Arc.remove_spec k)
   | arcPurge => exact Arc.purge_spec
+  | wtPut b k v => exact voided (Wt.put_spec b k v)
+  | wtGet k => exact voided (Wt.get_spec k)
+  | wtRemove k => exact voided (Wt.remove_spec k)
+  | wtPurge => exact Wt.purge_spec
   | rawPut c k v => exact voided (rawPut_spec c k v)
   | rawGet c k => exact voided (rawGet_spec c k)
   | rawRemove c k => exact voided (rawRemove_spec c k)
